@@ -59,7 +59,10 @@ def run(ctx, chk):
     pa = codec.parse_arguments(ctx)
     ov = operand_variants(ctx)
     from . import quantx
-    sc = parserx.spec_constant_op(ctx)
+    try:
+        sc = {"filtered": quantx.spec_excluded(ctx, ["IdResultType", "IdResult", "LiteralContextDependentNumber", "LiteralSpecConstantOpInteger", "PairLiteralIntegerIdRef"])}
+    except Anchor as ex:
+        sc = {"filtered": set()}
     try:
         spx = quantx.special(ctx)
         inter = {k for k, v in spx.items() if not any(c == ("operand", k) for c in v["consumed"]) and not (isinstance(v["result"], tuple) and v["result"][0] == "panic")}
